@@ -102,6 +102,46 @@ theorem refAns_owner (lg : Log) (o : List (Pid × Nat)) (f : Nat) : ∀ p, refAn
 
 /-! ### the static shape: trees of one-to-one nodes -/
 
+/-- the ghost derivation tree is ordered: the copies of a write and the packets an action derives have
+ids larger than their parent's and smaller than `nx` -/
+def LogOrd (lg : Log) (nx : Nat) : Prop :=
+  (∀ p cs, aget lg.dels p = some cs → ∀ c ∈ cs, p < c ∧ c < nx) ∧
+  (∀ p qs, aget lg.acts p = some qs → ∀ q ∈ qs, p < q ∧ q < nx)
+
+/-- the entries of the one key that changes are ordered -/
+def OrdAt (lg : Log) (k : Pid) (nx : Nat) : Prop :=
+  (∀ cs, aget lg.dels k = some cs → ∀ c ∈ cs, k < c ∧ c < nx) ∧
+  (∀ qs, aget lg.acts k = some qs → ∀ q ∈ qs, k < q ∧ q < nx)
+
+theorem ordAt_none (lg : Log) (k : Pid) (nx : Nat) (h1 : aget lg.dels k = none) (h2 : aget lg.acts k = none) :
+    OrdAt lg k nx :=
+  ⟨fun cs h => (by rw [h1] at h; cases h), fun qs h => (by rw [h2] at h; cases h)⟩
+
+theorem ordAt_dels_single (lg : Log) (k c : Pid) (nx : Nat) (hd : aget lg.dels k = some [c])
+    (ha : aget lg.acts k = none) (h1 : k < c) (h2 : c < nx) : OrdAt lg k nx := by
+  refine ⟨fun cs h => ?_, fun qs h => (by rw [ha] at h; cases h)⟩
+  rw [hd] at h
+  simp only [Option.some.injEq] at h
+  subst h
+  intro c' hc'
+  simp only [List.mem_singleton] at hc'
+  subst hc'
+  exact ⟨h1, h2⟩
+
+theorem logOrd_ext (lg lg' : Log) (k : Pid) (nx nx' : Nat) (ho : LogOrd lg nx) (hx : LogExt lg lg' k)
+    (hle : nx ≤ nx') (hk : OrdAt lg' k nx') : LogOrd lg' nx' := by
+  constructor
+  · intro p cs hp c hc
+    by_cases e : p = k
+    · subst e; exact hk.1 cs hp c hc
+    · rw [(hx.2 p e).2.1] at hp
+      exact ⟨(ho.1 p cs hp c hc).1, Nat.lt_of_lt_of_le (ho.1 p cs hp c hc).2 hle⟩
+  · intro p qs hp q hq
+    by_cases e : p = k
+    · subst e; exact hk.2 qs hp q hq
+    · rw [(hx.2 p e).1] at hp
+      exact ⟨(ho.2 p qs hp q hq).1, Nat.lt_of_lt_of_le (ho.2 p qs hp q hq).2 hle⟩
+
 structure TreeWF (N : Nat) (links : List (Nat × List Tgt)) : Prop where
   small : N ≤ 1000
   single : ∀ key, (getL links key).length ≤ 1
@@ -180,6 +220,7 @@ structure FI (N : Nat) (links : List (Nat × List Tgt)) (ss : Nat → S) (D : Na
   logBound : ∀ id, g.next ≤ id → Unlogged g.log id
   rootsB : ∀ r ∈ g.roots, r < g.next
   wq0 : ∀ key, getL links key = [] → (gw g.writers key).queue = []
+  logOrd : LogOrd g.log g.next
 
 theorem getNode_replicate (N n : Nat) :
     getNode (List.map (fun k => Node.mk k) (List.replicate N Kind.oneToOne)) n =
@@ -233,5 +274,6 @@ theorem FI_init (N : Nat) (links : List (Nat × List Tgt)) (hwf : TreeWF N links
   · intro id _; exact unlogged_empty id
   · intro r hr; simp [initG] at hr
   · intro key _; rfl
+  · exact ⟨fun p cs h => (by simp [initG, aget] at h), fun p qs h => (by simp [initG, aget] at h)⟩
 
 end Uniflow.FlowInv
